@@ -29,17 +29,26 @@
 (* "plugins_on_miss_only": the plugins switch honoured only when the       *)
 (* module is not cached yet - a decode with plugins disabled then runs a   *)
 (* module that an earlier decode loaded.                                   *)
+(*                                                                         *)
+(* Broken modules exist but fail while being loaded with something other   *)
+(* than ImportError (a data table missing at import, a NameError at module *)
+(* level).  That is a failing parser like any other: the section gets its  *)
+(* error note and dump, an SRC simply has no details.  Variant             *)
+(* "import_escape": the user-data site catches only ImportError around the *)
+(* import, so the exception leaves the decoder and the whole PEL is lost   *)
+(* (the state of the code between b55d183 and its follow-up fix).          *)
 (***************************************************************************)
 EXTENDS Naturals, Sequences, FiniteSets
 
 CONSTANTS Mods,            \* module names that exist
           Absent,          \* module names that do not exist
+          Broken,          \* module names that exist but fail while being loaded (not with ImportError)
           Variant,
           MaxHistory
 
 Caches == {"ud", "src", "co", "osrc"}
 Behs == {"ok", "nondict", "none", "raise", "raise_empty", "importerror"}
-Names == Mods \cup Absent
+Names == Mods \cup Absent \cup Broken
 
 \* what the statement says an item yields - no cache in sight
 RuleResult(it) ==
@@ -54,7 +63,9 @@ RuleResult(it) ==
                  (CASE it.beh \in {"ok", "nondict"} -> "plugin"
                     [] OTHER -> "nodetails")
 RuleAbsent(it) == IF it.cache = "ud" THEN "dump" ELSE "nodetails"
-Rule(it) == IF ~it.plugins \/ it.mod \in Absent THEN RuleAbsent(it) ELSE RuleResult(it)
+RuleBroken(it) == IF it.cache = "ud" THEN "dump+error" ELSE "nodetails"
+Rule(it) == IF ~it.plugins \/ it.mod \in Absent THEN RuleAbsent(it)
+            ELSE IF it.mod \in Broken THEN RuleBroken(it) ELSE RuleResult(it)
 
 VARIABLES cache,        \* [Caches -> [Names -> {"unseen", "module", "none"}]]
           hist,         \* number of items decoded so far
@@ -89,6 +100,14 @@ ImplStep(it, c) ==
         ELSE IF st = "none" THEN [result |-> missing, cache |-> c]
         ELSE IF it.mod \in Absent
              THEN [result |-> missing, cache |-> [c EXCEPT ![it.cache][k] = "none"]]
+        ELSE IF it.mod \in Broken
+             THEN \* the import raises: src / co remember the module as missing (bare except / except Exception),
+                  \* the BMC wrapper lets it through to SRC.parse's handler, the user-data site turns it into
+                  \* the section's error note - or, in the deviation, lets it escape
+                  CASE it.cache \in {"src", "co"} -> [result |-> "nodetails", cache |-> [c EXCEPT ![it.cache][k] = "none"]]
+                    [] it.cache = "osrc" -> [result |-> "nodetails", cache |-> c]
+                    [] it.cache = "ud" -> [result |-> IF Variant = "import_escape" THEN "pel lost" ELSE "dump+error",
+                                           cache |-> c]
         ELSE LET c1 == [c EXCEPT ![it.cache][k] = "module"] IN
              IF Poisons(it)
              THEN [result |-> missing, cache |-> [c EXCEPT ![it.cache][k] = "none"]]
@@ -113,6 +132,7 @@ HistoryIndependent == hist > 0 => lastResult = Rule(last)
 \* a module that exists is never remembered as missing
 NoPoisoning == \A c \in Caches : \A m \in Mods : cache[c][m] # "none"
 \* a failing parser gets its error note (C18: "error note plus raw hex dump")
-ErrorNoted == (hist > 0 /\ last.plugins /\ last.cache = "ud" /\ last.mod \in Mods /\ last.beh \in {"none", "raise", "raise_empty", "importerror"})
+ErrorNoted == (hist > 0 /\ last.plugins /\ last.cache = "ud"
+                  /\ (last.mod \in Broken \/ (last.mod \in Mods /\ last.beh \in {"none", "raise", "raise_empty", "importerror"})))
                  => lastResult = "dump+error"
 =============================================================================
